@@ -2,7 +2,7 @@
 # run the thorough-only harnesses of every claimed property one after the other (no evidence written);
 # log per harness: /tmp/thorough_<id>_<harness>.log, summary on stdout
 cd "$(dirname "$0")/.."
-python3-vt - <<'PY' > /tmp/thorough_list.txt
+python3-vt - <<'PY' > /tmp/thorough_list.$$.raw
 import sys
 sys.path.insert(0,'.')
 from symex import check
@@ -13,10 +13,13 @@ for i in range(1,21):
     for h in getattr(p,'HARNESSES',[]):
         if h.get('thorough_only'): print(pid,h['name'])
 PY
-grep -v WARNING /tmp/thorough_list.txt | while read pid h; do
+grep -v WARNING /tmp/thorough_list.$$.raw > /tmp/thorough_list.$$.txt; rm -f /tmp/thorough_list.$$.raw
+while read pid h; do
+  case " ${PROPS:-$pid} " in *" $pid "*) ;; *) continue;; esac
   case " $SKIP " in *" $pid:$h "*) continue;; esac
   t0=$(date +%s)
   timeout ${TMO:-1800} bin/check $pid --tier thorough --only $h --no-evidence > /tmp/thorough_${pid}_$h.log 2>&1
   rc=$?
   echo "$pid $h rc=$rc $(( $(date +%s) - t0 ))s $(grep -c INCONCLUSIVE /tmp/thorough_${pid}_$h.log) inconcl"
-done
+done < /tmp/thorough_list.$$.txt
+rm -f /tmp/thorough_list.$$.txt
